@@ -43,15 +43,9 @@ WellFormed(o) ==
             ELSE o.fll = {r.n : r \in {x \in st.file : x.ll}})
     /\ (o.op = "shutdown" /\ st.mod => st.inited)
     /\ (o.op = "maintain" => o.w \in Kinds)
-    \* a race: at most 4 operations; a failing factory is not asked twice (its calls could not be told apart)
     /\ (o.op = "race" => /\ Len(o.par) \in 1..4
                          /\ \A i \in 1..Len(o.par) : o.par[i].op \in {"use", "inject", "register", "shutdown"}
-                         /\ (st.mod => \A i \in 1..Len(o.par) : o.par[i].op # "shutdown")
-                         /\ \A i \in 1..Len(o.par) : o.par[i].op = "register" => o.par[i].t # "nostart"
-                         /\ \A i, j \in 1..Len(o.par) : (i # j /\ o.par[i].op = "use" /\ o.par[j].op = "use" /\ o.par[i].n = o.par[j].n)
-                                                           => ~(Has(st, o.par[i].n) /\ Desc(st, o.par[i].n).t = "nostart"))
-    /\ (o.op = "madd" => /\ \A i \in 1..Len(o.batch) : \A k \in 1..Len(st.migs) : st.migs[k].id # o.batch[i].id
-                         /\ \A i, j \in 1..Len(o.batch) : i # j => o.batch[i].id # o.batch[j].id)
+                         /\ (st.mod => \A i \in 1..Len(o.par) : o.par[i].op # "shutdown"))
 
 Match(x, ev) ==
     LET r == x.res IN
